@@ -62,7 +62,7 @@ type Finding struct{ Sig, Msg string }
 
 type Stats struct {
 	Values, InArray, GapsInArrays, BelowNested, BelowFormat, TobitsCompared, Unmatched, KnownTLS, Interesting int64
-	StructFieldWithIndex, RootWithIndex, ParentsNotChecked                                                   int64
+	StructFieldWithIndex, RootWithIndex, ParentsNotChecked                                                    int64
 }
 
 type rec struct {
